@@ -2,6 +2,7 @@
 // rapidcheck properties use). Mode A keeps the world inside the physical domain and queries degenerate places:
 // every answer must be finite (C13). Mode B replaces numbers by extreme values / empties lists: construction may
 // throw, queries may throw, nothing may crash (C12).
+#include <fstream>
 #include "../gen.h"
 #include "fz_common.h"
 
@@ -66,6 +67,7 @@ extern "C" int LLVMFuzzerTestOneInput(const uint8_t *data, size_t size)
         }
     }
   const std::string text = doc.dump();
+  if (const char *dump_to = std::getenv("VERIF_FUZZ_DUMP")) { std::ofstream df(dump_to); df << text; } // triage: the world this input decodes to
   fz::counters().parsed++;
   WorldBuilder::World *W = fz::build(text);
   if (!W) return 0; // rejected with a proper exception (counted)
